@@ -42,6 +42,8 @@ type Engine struct {
 
 	extraAssumptions map[string][]string
 	extraCoverage    map[string]map[string]interface{}
+	protoContract map[*ssa.Function]*Contract
+	engineObls    []*Obligation
 	trustedUsed map[string]bool
 	slessUsed   bool
 	allFuncs    map[*ssa.Function]bool
@@ -77,6 +79,7 @@ func NewEngine(repo string, patterns []string) (*Engine, error) {
 		typeCache: map[string]types.Type{}, pkgFilePos: map[string][]token.Pos{}, extraPkgs: map[string]*types.Package{},
 		loopCache: map[*ssa.Function]map[*ssa.BasicBlock]*loopInfo{}, trivial: map[string]int{},
 		extraAssumptions: map[string][]string{}, extraCoverage: map[string]map[string]interface{}{},
+		protoContract: map[*ssa.Function]*Contract{},
 		trustedUsed: map[string]bool{}, globalInit: map[string]globalInitInfo{},
 	}
 	for _, p := range pkgs {
